@@ -320,7 +320,7 @@ func (g *xmlGen) attrValue(q byte) string {
 	for i := 0; i < n; i++ {
 		switch r.Intn(12) {
 		case 0:
-			sb.WriteString(r.Pick([]string{"&lt;", "&amp;", "&gt;", "&quot;", "&apos;", "&#60;", "&#x3C;", "&#38;", "&#34;", "&#39;", "&#x27;"}))
+			sb.WriteString(r.Pick([]string{"&lt;", "&amp;", "&gt;", "&quot;", "&apos;", "&#60;", "&#x3C;", "&#38;", "&#34;", "&#39;", "&#x27;", "&#x22;", "&#034;", "&#0034;", "&#x022;", "&#039;", "&#x0027;", "&#x3c;", "&#060;", "&#x0026;"}))
 		case 1:
 			sb.WriteString(r.Pick([]string{"&#9;", "&#10;", "&#13;", "&#xA;", "&#xD;", "&#x9;", "&#32;"}))
 		case 2:
@@ -331,9 +331,9 @@ func (g *xmlGen) attrValue(q byte) string {
 			}
 		case 3:
 			if q == '"' {
-				sb.WriteString(r.Pick([]string{"&quot;", "&#34;", "'"}))
+				sb.WriteString(r.Pick([]string{"&quot;", "&#34;", "'", "&#x22;", "&#034;", "&#x0022;"})) // every spelling of the delimiter as a reference
 			} else {
-				sb.WriteString(r.Pick([]string{"&apos;", "&#39;", "\""}))
+				sb.WriteString(r.Pick([]string{"&apos;", "&#39;", "\"", "&#x27;", "&#039;", "&#x0027;"}))
 			}
 		case 4:
 			sb.WriteString(r.Pick([]string{" ", "  ", "\t", "\n", " \n "}))
